@@ -475,13 +475,13 @@ def run(ctx: Ctx) -> None:
         split_case(ctx, "Q", [{"cx": w / 2, "cy": h / 2, "w": w, "h": h, "region": "_", "fixed": False, "hard": False, "loc": "X"}],
                    ratio, n, reqs, todo)
     die_case(ctx, "Q", "4.0x4.0", None, 1.5, 2, reqs, todo)
-    for i in range(_n(ctx, 2000, 20000)):
+    for i in range(_n(ctx, 2000, 15000)):
         mode = "Q" if i % 3 != 2 else "F"
         ratio, n = pick(rng, mode, nmax)
         if rng.random() < 0.04:
             ratio, n = rng.choice([(1.25, n), (ratio, 0), (1.0, 0)])
         split_case(ctx, mode, gen_rect_list(rng, mode), ratio, n, reqs, todo)
-    for i in range(_n(ctx, 1300, 12000)):
+    for i in range(_n(ctx, 1300, 9000)):
         mode = "Q" if i % 3 != 2 else "F"
         ratio, n = pick(rng, mode, nmax)
         dy, ny = gen_die_yaml(rng, mode)
